@@ -8,6 +8,12 @@ a render is known.  Bodies re-reference the evaluated names through every insert
 nested up to three tags deep.
 Oracle: vlib.c09_util.predict, a small reference interpreter of conditional chains written
 from the DT_If docstring and the property statement; it predicts (output, ordered trace).
+Histories (vlib.c09_util.predict_script): several templates over the same fresh names in one
+process, several conditionals per template, several renders per template with changing
+bindings (callables returning value sequences), conditionals left by exceptions / dtml-return;
+the model judges every render on its own, so anything an engine carries over from an earlier
+compile, render or conditional (or a condition compiled as something its spelling does not
+say) shows as an output / trace difference.
 """
 import itertools
 import json
@@ -32,9 +38,22 @@ RULE = ('exhaustive: every chain of 1..N conditions (N=4 quick, 5 thorough) x ea
         '(thorough) x every kind of defined named condition x true/false; seeded: length-5 chains '
         '(quick), chains with functions, bound methods, sub-templates, _[name] expressions, repeated '
         'names and later conditions armed to raise; unless (with its if twin, all body types) and call '
-        'over every kind x every value x every enclosing tag. distinct = distinct full case '
-        'descriptions; non-trivial = at least one condition whose evaluation is observable (event or '
-        'undefined name) or a rendered body re-reference')
+        'over every kind x every value x every enclosing tag. Histories (scripts): 1..3 templates, each '
+        '1..3 conditionals (chain of 1..3 / unless / call, all enclosing tags and body types as above) '
+        'over a pool of 1..3 names that are fresh in the process, each condition spelled as the name, as '
+        'the expression consisting of that one identifier, probe() or _[name]; compiled all first or '
+        'each before its first render; rendered 1..6 times in 1..3 rounds of bindings (kind and values '
+        'of every name change between rounds, callables return a sequence of values inside one render, '
+        'a template may be compiled again); some conditionals are left by an exception raised by the '
+        'rendered body or by a last elif condition inside dtml-try, or by dtml-return in a sub-template '
+        'sharing the namespace, and are followed by conditionals over the same names; every render is '
+        'compared (output, ordered trace) with the model, which carries nothing over. Exhaustive '
+        'spelling histories: two templates over one fresh identifier x tag position {if, elif, unless, '
+        'call} x {name, identifier expression} for each x 8 bindings x both compile orders, rendered '
+        'alternately in two rounds; exhaustive exception histories: 5 ways of leaving a conditional x '
+        'the tag testing the name next x 6 kinds of binding x truth x second evaluation same/opposite. '
+        'distinct = distinct full case descriptions; non-trivial = at least one condition whose '
+        'evaluation is observable (event or undefined name) or a rendered body re-reference')
 ASSUMPTIONS = [
     'body references are generated only to names the conditional has evaluated and found defined at or '
     'before the branch (that is what the statement speaks about); undefined names are never referenced',
@@ -49,6 +68,18 @@ ASSUMPTIONS = [
     'the deprecated standalone <dtml-else name>...</dtml-else> block (an unless synonym) is not exercised',
     'every rendering of a conditional (each dtml-in iteration, each of two copies side by side) is a new '
     'conditional: a reached named condition is evaluated again, nothing is carried over',
+    'histories: the same holds between conditionals of one template, between renders of one compiled '
+    'template and between templates of one process; a conditional left by an exception (or by dtml-return) '
+    'has ended; what a condition means depends on its own spelling only',
+    'the expression "x" denotes the object bound to x: it is not called (only inserted *names* are, says the '
+    'module docstring) and a probe object is true; once the conditional has evaluated the name x, "x" inside '
+    'it is the remembered value (DT_If note); identifier expressions are generated over plain values and '
+    'callables only (not over logging-mapping values: the number of lookups an expression makes is not stated)',
+    'histories: bodies reference only names that are bound in every round; dtml-call of a name is generated '
+    'only over such names; a raising body raises with its first tag and the conditional is the only content '
+    'of the dtml-try block, so that the text of the handled block is "EXC" whatever a try block does with '
+    'partial output; of dtml-return only "ends the rendering of the sub-template" is used (the sub-template is '
+    'invoked by dtml-call, its text / return value is not judged)',
 ]
 SHARD_TIMEOUT = {'quick': 600, 'thorough': 3000}
 NSHARDS = {'quick': 16, 'thorough': 32}
@@ -62,6 +93,10 @@ GRID_OPTS = (('nc', True), ('nc', False), ('ex', True), ('ex', False), ('un', No
 GRID_OPTS_LONG = (('nc', True), ('nc', False), ('un', None))       # length 4 (thorough)
 DUP_N = {'quick': 3, 'thorough': 4}
 DUP_BIND = (('nc', True), ('nc', False), ('nm', True), ('nm', False), ('un', None))
+SCRIPTS = {'quick': 8000, 'thorough': 80000}        # seeded histories
+POSITIONS = ('if', 'elif', 'unless', 'call')        # where a history grid puts the condition on its name
+SPELL_BIND = tuple((k, t) for k in U.EV_KINDS for t in (True, False))
+EXC_FIRST = (('chain', 'body'), ('chain', 'cond'), ('unless', 'body'), ('chain', 'ret'), ('unless', 'ret'))
 
 # the options of one condition in the exhaustive family
 OPTS = [('nc', True), ('nc', False), ('np', True), ('np', False), ('nm', True), ('nm', False),
@@ -113,21 +148,22 @@ def make_body(rng, names, btype):
     return 'full', make_refs(rng, names)
 
 
-def finish_case(rng, fam, conds, has_else, outers=U.OUTERS, btypes=None, etype=None):
+def finish_case(rng, fam, conds, has_else, outers=U.OUTERS, btypes=None, etype=None, referable=None):
     """has_else: False | True ('bare' <dtml-else>) | 'named' (<dtml-else NAME>, the long form)."""
     n = len(conds)
+    referable = referable or U.referable
     case = {'fam': fam, 'style': rng.choice(('dtml', 'dtml', 'sgml')),
             'outer': rng.choice(outers), 'conds': conds, 'bodies': [], 'btypes': [], 'else': None}
     for i in range(n):
-        bt, refs = make_body(rng, U.referable(conds, i), btypes[i] if btypes else rng.choice(BTYPE_DRAW))
+        bt, refs = make_body(rng, referable(conds, i), btypes[i] if btypes else rng.choice(BTYPE_DRAW))
         case['btypes'].append(bt)
         case['bodies'].append(refs)
     if has_else:
-        case['etype'], case['else'] = make_body(rng, U.referable(conds, n),
+        case['etype'], case['else'] = make_body(rng, referable(conds, n),
                                                 etype or rng.choice(BTYPE_DRAW))
         if has_else == 'named':
             case['ename'] = True
-    if conds[0]['k'] in U.NAMED and rng.random() < 0.15:
+    if conds[0]['k'] in U.NAMED_MODES and rng.random() < 0.15:
         case['endname'] = True
     if rng.random() < 0.15:
         case['bare'] = True
@@ -152,6 +188,253 @@ def gen_ext(rng, maxn):
     case = finish_case(rng, 'chain', conds, has_else)
     case['boom'] = rng.random() < 0.4
     return case
+
+
+# ---------------------------------------------------------------- histories (scripts)
+def tok(rng, truth=None):
+    t = (rng.random() < 0.45) if truth is None else truth
+    return [t, rng.randrange(len(U.TRUE if t else U.FALSE))]
+
+
+def make_segment(rng, fam, conds, safe, has_else=None, exc=None, xl=None):
+    """A conditional of a script template; bodies reference only names in `safe` (bound in every round)."""
+    if fam == 'call':
+        seg = {'fam': 'call', 'style': rng.choice(('dtml', 'dtml', 'sgml')),
+               'outer': rng.choice((None, None, 'twice') + U.WRAPPERS), 'conds': conds,
+               'bodies': [[]], 'else': None}
+        if rng.random() < 0.15:
+            seg['bare'] = True
+        return seg
+    if fam == 'unless':
+        has_else = False
+    elif has_else is None:
+        has_else = rng.random() < 0.6
+    if has_else and conds[0]['k'] == 'nx' and rng.random() < 0.3:
+        has_else = 'named'
+    seg = finish_case(rng, fam, conds, has_else,
+                      referable=lambda cs, i: U.script_referable(cs, i, safe))
+    if exc:
+        seg['exc'] = exc if fam == 'chain' or exc == 'ret' else 'body'
+        seg['xl'] = xl
+    return seg
+
+
+def draw_round(rng, classes, prev=None, sticky=0.5):
+    kinds = {'ev': U.EV_KINDS, 'def': U.DEFINED_KINDS, 'any': U.ANY_KINDS, 'xv': ('xv',), 'ei': ('nc',)}
+    b = {}
+    for n in sorted(classes):
+        if prev and rng.random() < sticky:
+            k = prev[n]['k']
+        else:
+            k = rng.choice(kinds[classes[n]])
+        nv = 0 if k == 'un' else (1 if k in ('np', 'nm') else rng.choice((1, 2, 2, 3)))
+        b[n] = {'k': k, 'vs': [tok(rng) for _ in range(nv)]}
+    return b
+
+
+def gen_script(rng, uid):
+    """A seeded history: 1..3 templates of 1..3 conditionals over a pool of 1..3 names (each tested as a
+    name and, for some, as the one-identifier expression), two probe() expressions and one _[name];
+    1..3 rounds of bindings; every template rendered at least once, up to three more renders."""
+    classes = {}
+    for i in range(rng.choice((1, 2, 2, 3))):
+        classes['%sp%d' % (uid, i + 1)] = rng.choice(('ev', 'ev', 'def', 'any'))
+    pool = sorted(classes)
+    safe = set(n for n in pool if classes[n] != 'any')
+    evn = [n for n in pool if classes[n] == 'ev']
+    exprs = ['%se%d' % (uid, i + 1) for i in range(2)]
+    for n in exprs:
+        classes[n] = 'xv'
+    classes[uid + 'i1'] = 'ei'
+    templates = []
+    xn = 0
+    for ti in range(rng.choice((1, 2, 2, 3))):
+        segs = []
+        for si in range(rng.choice((1, 2, 2, 3))):
+            fam = rng.choice(('chain',) * 4 + ('unless',) * 2 + ('call',))
+            conds = []
+            for i in range(rng.randint(1, 3) if fam == 'chain' else 1):
+                r = rng.random()
+                names = sorted(safe) if fam == 'call' else pool     # call of an unbound name is not judged
+                if r < 0.5 and names:
+                    c = {'k': 'nx', 'n': rng.choice(names)}
+                elif r < 0.75 and evn:
+                    c = {'k': 'ev', 'n': rng.choice(evn)}
+                elif r < 0.92:
+                    c = {'k': 'ex', 'n': rng.choice(exprs)}
+                else:
+                    c = {'k': 'ei', 'n': uid + 'i1'}
+                c['a'] = rng.randrange(6)
+                conds.append(c)
+            exc = None
+            if fam != 'call' and rng.random() < 0.3:
+                exc = rng.choice(('body', 'cond', 'ret'))
+                xn += 1
+            segs.append(make_segment(rng, fam, conds, safe, exc=exc, xl='%sx%d' % (uid, xn)))
+        templates.append(segs)
+    rounds = []
+    for r in range(rng.choice((1, 2, 2, 3))):
+        rounds.append(draw_round(rng, classes, rounds[-1] if rounds else None))
+    order = list(range(len(templates)))
+    rng.shuffle(order)
+    sched = [[ti, rng.randrange(len(rounds)), False] for ti in order]
+    for _ in range(rng.randint(0, 3)):
+        sched.append([rng.randrange(len(templates)), rng.randrange(len(rounds)), rng.random() < 0.2])
+    return {'fam': 'script', 'uid': uid, 'compile': rng.choice(('first', 'lazy')),
+            'templates': templates, 'rounds': rounds, 'schedule': sched}
+
+
+def position_segment(rng, uid, pos, mode, x, safe, **kw):
+    """A conditional whose condition on x stands in the given tag: if / elif / unless / call."""
+    c = {'k': mode, 'n': x, 'a': rng.randrange(6)}
+    if pos == 'if':
+        return make_segment(rng, 'chain', [c], safe, **kw)
+    if pos == 'elif':                   # behind an expression that is false in every round
+        return make_segment(rng, 'chain', [{'k': 'ex', 'n': uid + 'e1', 'a': rng.randrange(6)}, c], safe, **kw)
+    if pos == 'unless':
+        return make_segment(rng, 'unless', [c], safe, **kw)
+    if pos == 'call':
+        return make_segment(rng, 'call', [c], safe)
+    raise ValueError(pos)
+
+
+def spelling_script(rng, uid, p1, m1, p2, m2, bind, order):
+    """Two templates that test one fresh identifier, each as a name or as the expression made of that
+    identifier, in each tag position; rendered alternately in two rounds (second round: another kind
+    of binding, the opposite truth)."""
+    x = uid + 'p1'
+    safe = set([x])
+    templates = [[position_segment(rng, uid, p1, m1, x, safe, has_else=True)],
+                 [position_segment(rng, uid, p2, m2, x, safe, has_else=True)]]
+    k, t = bind
+    r0 = {x: {'k': k, 'vs': [tok(rng, t)]}, uid + 'e1': {'k': 'xv', 'vs': [tok(rng, False)]}}
+    r1 = {x: {'k': rng.choice(U.EV_KINDS), 'vs': [tok(rng, not t)]},
+          uid + 'e1': {'k': 'xv', 'vs': [tok(rng, False)]}}
+    return {'fam': 'script', 'uid': uid, 'compile': order, 'templates': templates, 'rounds': [r0, r1],
+            'schedule': [[0, 0, False], [1, 0, False], [0, 1, False], [1, 1, False]]}
+
+
+def exception_script(rng, uid, first, pos, kind, truth, flip):
+    """One template: a conditional that evaluates the name x and is then left by an exception (handled
+    by the dtml-try around it), followed by conditionals that test x again; x is a callable whose
+    second evaluation returns the same or the opposite truth (plain values stay)."""
+    x = uid + 'p1'
+    safe = set([x])
+    fam, exc = first
+    c = {'k': 'nx', 'n': x, 'a': rng.randrange(6)}
+    conds = [c]
+    if exc == 'cond' and rng.random() < 0.5:
+        conds.append({'k': 'ex', 'n': uid + 'e1', 'a': rng.randrange(6)})
+    segs = [make_segment(rng, fam, conds, safe, has_else=(exc != 'cond') or None, exc=exc, xl=uid + 'x1'),
+            position_segment(rng, uid, pos, 'nx', x, safe, has_else=True),
+            position_segment(rng, uid, rng.choice(POSITIONS), 'nx', x, safe)]
+    if exc == 'cond':
+        truth = False                   # the raising condition is reached only behind false conditions
+    vs = [tok(rng, truth)]
+    if kind in U.SCRIPT_CALLABLE:
+        vs.append(tok(rng, (not truth) if flip else truth))
+        vs.append(tok(rng))
+    r0 = {x: {'k': kind, 'vs': vs}, uid + 'e1': {'k': 'xv', 'vs': [tok(rng, False)]}}
+    return {'fam': 'script', 'uid': uid, 'compile': 'first', 'templates': [segs], 'rounds': [r0],
+            'schedule': [[0, 0, False], [0, 0, False]]}
+
+
+def observe_script(script):
+    """Compile / render the history with the real engine -> per scheduled render
+    (source, output | None, events, exception | None); stops at the first exception."""
+    from DocumentTemplate.DT_HTML import HTML
+    nt = len(script['templates'])
+    sources = [U.script_source(script, ti) for ti in range(nt)]
+    compiled = {}
+    res = []
+    early = None
+    if script['compile'] == 'first':
+        try:
+            for ti in range(nt):
+                compiled[ti] = HTML(sources[ti])         # the constructor compiles
+        except Exception as e:
+            early = e
+    for ti, ri, fresh in script['schedule']:
+        if early is not None:
+            res.append((sources[ti], None, [], early))
+            break
+        rec = Recorder()
+        mapping, kw = U.make_script_namespace(script, ri, rec)
+        out = exc = None
+        try:
+            if fresh or ti not in compiled:
+                compiled[ti] = HTML(sources[ti])
+            out = compiled[ti](None, mapping, **kw)
+        except Exception as e:
+            exc = e
+        res.append((sources[ti], out, [(k, s) for k, s, d in rec.events], exc))
+        if exc is not None:
+            break
+    return res
+
+
+def run_script(ctx, script, family='seeded'):
+    preds = U.predict_script(script)
+    ctx.case(json.dumps(script, sort_keys=True), any(p['events'] for p in preds))
+    ctx.count('script:scripts')
+    ctx.table('script family', family)
+    got = observe_script(script)
+    for step, (src, out, got_ev, exc) in enumerate(got):
+        p = preds[step]
+        ti, ri, fresh = script['schedule'][step]
+        ctx.count('script:renders compared')
+        ctx.count('monitor:evaluation events compared', len(p['events']))
+        problems = []
+        if exc is not None:
+            problems.append('raised %s: %s' % (type(exc).__name__, str(exc)[:160]))
+        else:
+            if out != p['out']:
+                problems.append('output %r, expected %r' % (U_short(out), U_short(p['out'])))
+            if got_ev != p['events']:
+                problems.append('evaluation trace %r, expected %r' % (got_ev[:12], p['events'][:12]))
+        if problems:
+            what = ('history step %d (template %d, round %d%s, %d render(s) before): %s'
+                    % (step, ti, ri, ', compiled again' if fresh else '', step, '; '.join(problems)))
+            ctx.violation(what, script, mech=classify(script, what),
+                          key='script_%s_%s' % (family.replace(' ', '-'), 'first-render' if step == 0 else 'later-render'),
+                          detail={'source': src, 'sources': [U.script_source(script, i)
+                                                             for i in range(len(script['templates']))],
+                                  'expected_output': p['out'], 'output': out,
+                                  'expected_events': p['events'], 'events': got_ev,
+                                  'bindings': script['rounds'][ri]})
+            return
+    # ---- coverage bookkeeping (only histories that were compared to the end)
+    for k, n in U.script_history(script).items():
+        if n:
+            ctx.count('script:history:' + k, n)
+    ctx.table('script templates', len(script['templates']))
+    ctx.table('script renders', len(script['schedule']))
+    ctx.table('script compile order', script['compile'])
+    for step, p in enumerate(preds):
+        ti, ri, fresh = script['schedule'][step]
+        if p['varied']:
+            ctx.count('script:render in which a callable returned another value on a later evaluation')
+        if p['raised']:
+            ctx.count('script:conditional left by an exception', p['raised'])
+        if p['after_exc']:
+            ctx.count('script:name tested again after the conditional that remembered it was left by an exception',
+                      p['after_exc'])
+        for seg, chosen in zip(script['templates'][ti], p['chosen']):
+            ctx.table('script segment', '%s/%s/%s' % (seg['fam'], seg.get('outer'), seg.get('exc')))
+            if 'X' in chosen:
+                ctx.table('script conditional left by', seg['exc'], chosen.count('X'))
+            for ch in chosen:
+                ctx.table('script branch taken', '%s/%s' % (seg['fam'], {None: 'nothing', 'E': 'else',
+                                                                        'X': 'exception'}.get(ch, ch)))
+            for c in seg['conds']:
+                ctx.table('script condition spelling x binding',
+                          '%s/%s' % (c['k'], script['rounds'][ri][c['n']]['k']))
+    if ctx.shard % 8 == 7 and not ctx.samples and len(script['templates']) > 1 and \
+            any(p['raised'] for p in preds):
+        ctx.sample({'history': [{'template': ti, 'round': ri, 'compiled again': fresh, 'source': g[0],
+                                 'bindings': script['rounds'][ri], 'output': g[1], 'events': g[2],
+                                 'predicted_output': p['out'], 'predicted_events': p['events']}
+                                for (ti, ri, fresh), g, p in zip(script['schedule'], got, preds)]})
 
 
 # ---------------------------------------------------------------- one case against the engine
@@ -298,7 +581,7 @@ def run_case(ctx, case, sample=False):
 
 def wants_sample(ctx, case, chosen, rendered_refs):
     """The driver keeps one sample per shard: pick a different kind of case in each shard."""
-    if ctx.samples:
+    if ctx.samples or ctx.shard % 8 == 7:       # shards 7, 15, ...: a history is the sample
         return False
     fam, conds, sel = case['fam'], case['conds'], ctx.shard % 4
     deep = any(len(r[2]) >= 2 for r in rendered_refs)
@@ -369,15 +652,34 @@ def controls(ctx):
 
 
 # ---------------------------------------------------------------- shard
+# engine internals entered by the workload: diagnosis only (the verdict and `inconclusive` rest on the
+# output / trace comparisons, which name no engine function)
+ANCHORS = (('render_blocks_', '_DocumentTemplate', 'render_blocks_'),
+           ('If.__init__', 'DT_If', 'If.__init__'),
+           ('Unless.__init__', 'DT_If', 'Unless.__init__'),
+           ('Call.__init__', 'DT_Var', 'Call.__init__'),
+           ('TemplateDict.getitem', '_DocumentTemplate', 'TemplateDict.getitem'))
+
+
+def anchors():
+    import importlib
+    out = []
+    for label, mod, path in ANCHORS:
+        try:
+            obj = importlib.import_module('DocumentTemplate.' + mod)
+            for part in path.split('.'):
+                obj = getattr(obj, part)
+        except (ImportError, AttributeError):
+            continue
+        out.append((label, obj))
+    return out
+
+
 def run(ctx, spec):
-    from DocumentTemplate import DT_If, DT_Var, _DocumentTemplate
     from vlib.reach import Reach
     reach = Reach()
-    reach.watch('render_blocks_', _DocumentTemplate.render_blocks_)
-    reach.watch('If.__init__', DT_If.If.__init__)
-    reach.watch('Unless.__init__', DT_If.Unless.__init__)
-    reach.watch('Call.__init__', DT_Var.Call.__init__)
-    reach.watch('TemplateDict.getitem', _DocumentTemplate.TemplateDict.getitem)
+    for label, fn in anchors():
+        reach.watch(label, fn)
     reach.start()
     rng = ctx.rng
     tier = ctx.tier
@@ -518,6 +820,47 @@ def run(ctx, spec):
                                 'bodies': [[ref]], 'else': [ref]}
                         run_case(ctx, case)
                         ctx.count('chain:exhaustive body-shape cases')
+
+    # 6. histories.  6a exhaustive spelling history: two templates over one fresh identifier x each tag
+    #    position x {name, one-identifier expression} for both x every binding x both compile orders
+    uid = lambda i: 's%dk%d' % (ctx.shard, i)       # names never used before in this process
+    serial = 0
+    idx = 0
+    for p1 in POSITIONS:
+        for m1 in ('nx', 'ev'):
+            for p2 in POSITIONS:
+                for m2 in ('nx', 'ev'):
+                    for bind in SPELL_BIND:
+                        for order in ('first', 'lazy'):
+                            mine = idx % ctx.nshards == ctx.shard
+                            idx += 1
+                            if not mine:
+                                continue
+                            serial += 1
+                            run_script(ctx, spelling_script(rng, uid(serial), p1, m1, p2, m2, bind, order),
+                                       'spelling grid')
+                            ctx.count('script:exhaustive spelling-history cases')
+    # 6b exhaustive exception history: a conditional left by an exception x the tag that tests the name
+    #    next x every kind of binding x first truth x second evaluation same / opposite
+    idx = 0
+    for first in EXC_FIRST:
+        for pos in POSITIONS:
+            for kind in U.DEFINED_KINDS:
+                for truth in (True, False):
+                    for flip in (False, True):
+                        mine = idx % ctx.nshards == ctx.shard
+                        idx += 1
+                        if not mine:
+                            continue
+                        serial += 1
+                        run_script(ctx, exception_script(rng, uid(serial), first, pos, kind, truth, flip),
+                                   'exception grid')
+                        ctx.count('script:exhaustive exception-history cases')
+    # 6c seeded histories
+    for _ in range(SCRIPTS[tier] // ctx.nshards):
+        serial += 1
+        run_script(ctx, gen_script(rng, uid(serial)))
+        ctx.count('script:seeded histories')
     reach.stop()
     reach.report(ctx)
 
@@ -526,10 +869,8 @@ def finish(agg):
     c = agg['counters']
     t = agg['tables']
     inc = []
-    for r in ('reach:render_blocks_', 'reach:If.__init__', 'reach:Unless.__init__',
-              'reach:Call.__init__', 'reach:TemplateDict.getitem'):
-        if not c.get(r):
-            inc.append('anchor never entered: ' + r)
+    # a renamed / rewired engine helper must not mask an oracle that did evaluate: diagnosis only
+    unreached = [label for label, _, _ in ANCHORS if not c.get('reach:' + label)]
     need = ['chain:true condition followed by further conditions',
             'chain:...whose later conditions are observable',
             'monitor:evaluation events compared',
@@ -545,9 +886,34 @@ def finish(agg):
             'control:two plain references seen as two calls',
             'control:references to a name the conditional did not evaluate are calls',
             'control:mapping lookups seen']
+    need += ['script:renders compared', 'script:seeded histories',
+             'script:history:name after expression', 'script:history:expression after name',
+             'script:history:re-render, other round', 'script:history:re-render, same round',
+             'script:history:kind changed between renders', 'script:history:fresh compile',
+             'script:render in which a callable returned another value on a later evaluation',
+             'script:conditional left by an exception',
+             'script:name tested again after the conditional that remembered it was left by an exception']
     for k in need:
         if not c.get(k):
             inc.append('deciding counter is zero: ' + k)
+    spell = (len(POSITIONS) * 2) ** 2 * len(SPELL_BIND) * 2
+    if c.get('script:exhaustive spelling-history cases', 0) != spell:
+        inc.append('exhaustive spelling-history enumeration incomplete: %s of %d'
+                   % (c.get('script:exhaustive spelling-history cases'), spell))
+    exch = len(EXC_FIRST) * len(POSITIONS) * len(U.DEFINED_KINDS) * 4
+    if c.get('script:exhaustive exception-history cases', 0) != exch:
+        inc.append('exhaustive exception-history enumeration incomplete: %s of %d'
+                   % (c.get('script:exhaustive exception-history cases'), exch))
+    for sp in ('nx', 'ev'):
+        for bk in U.EV_KINDS:
+            if not t.get('script condition spelling x binding', {}).get('%s/%s' % (sp, bk)):
+                inc.append('history: spelling %s never rendered over a %s binding' % (sp, bk))
+    for how in ('body', 'cond', 'ret'):
+        if not t.get('script conditional left by', {}).get(how):
+            inc.append('history: no conditional was left by: ' + how)
+    for bk in ('nt', 'nm', 'un'):
+        if not t.get('script condition spelling x binding', {}).get('nx/%s' % bk):
+            inc.append('history: a name never rendered over a %s binding' % bk)
     for form in U.FORMS:
         if not t.get('rendered reference form', {}).get(form):
             inc.append('reference form never rendered: ' + form)
@@ -599,23 +965,27 @@ def finish(agg):
                    % (c.get('chain:exhaustive body-shape cases'), shapes))
     return {'inconclusive': inc,
             'coverage': {'exhaustive': True,
+                         'engine anchors not entered (diagnosis only)': unreached,
                          'exhaustive_part': 'chains of 1..%d conditions x %d options per condition x '
                                             'else absent / <dtml-else> / <dtml-else NAME> = %d cases; '
                                             'body types: chains of 1..%d conditions x every body in '
                                             '{empty, blank, text, text+references} x else absent or one '
                                             'of the four = %d cases; repeated names: %d cases; '
                                             'body shapes: %d forms x all wrapper stacks of depth 0..%d '
-                                            'x %d named kinds x true/false = %d cases'
+                                            'x %d named kinds x true/false = %d cases; spelling '
+                                            'histories: %d; exception histories: %d'
                                             % (n, len(OPTS), total, GRID_N[agg['tier']], grid, dups,
                                                len(U.FORMS), SHAPE_DEPTH[agg['tier']],
-                                               len(U.NAMED_DEFINED), shapes),
+                                               len(U.NAMED_DEFINED), shapes, spell, exch),
                          'explanation': 'values, spelling, enclosing tag and body references of the '
                                         'exhaustive chains are seeded; seeded families are extra'}}
 
 
 def replay(ctx, rep):
     case = rep['case']
-    if case['fam'] == 'unless':
+    if case['fam'] == 'script':
+        run_script(ctx, case, 'replay')
+    elif case['fam'] == 'unless':
         run_unless(ctx, case)
     else:
         run_case(ctx, case)
